@@ -36,12 +36,24 @@ var c14RegTmpls = []c14Tmpl{
 	{"G;D", [][]string{{"get", "del"}}, []string{"cold"}},
 }
 
+// single-threaded list templates run on the raw-memory topology (real *memory.Storage
+// as cache tier, persistence on)
+var c14RawListTmpls = []c14Tmpl{
+	{"A", [][]string{{"append"}}, []string{"cold", "warm", "absent"}},
+	{"R", [][]string{{"remove"}}, []string{"cold", "warm"}},
+	{"A;A", [][]string{{"append", "append"}}, []string{"cold"}},
+	{"A;R", [][]string{{"append", "remove"}}, []string{"cold"}},
+	{"R;A", [][]string{{"remove", "append"}}, []string{"cold"}},
+	{"L;A", [][]string{{"getlist", "append"}}, []string{"cold"}},
+}
+
 var c14ListTmpls = []c14Tmpl{
 	{"A|A", [][]string{{"append"}, {"append"}}, []string{"absent", "warm", "cold"}},
 	{"A|R", [][]string{{"append"}, {"remove"}}, []string{"warm", "cold"}},
 	{"A|A|L", [][]string{{"append"}, {"append"}, {"getlist"}}, []string{"warm"}},
 	{"A|L", [][]string{{"append"}, {"getlist"}}, []string{"cold"}},
 	{"A", [][]string{{"append"}}, []string{"cold"}},
+	{"R", [][]string{{"remove"}}, []string{"cold"}},
 }
 
 func c14Topos() []c14Topo {
@@ -56,10 +68,17 @@ func c14Topos() []c14Topo {
 }
 
 func c14Scenarios(tmpls []c14Tmpl, list bool) []*c14Scenario {
+	return c14ScenariosOn(c14Topos(), tmpls, list)
+}
+
+func c14ScenariosOn(topos []c14Topo, tmpls []c14Tmpl, list bool) []*c14Scenario {
 	var out []*c14Scenario
 	n := 0
-	for _, tp := range c14Topos() {
+	for _, tp := range topos {
 		for cat := c14Runtime; cat <= c14SharedPersistent; cat++ {
+			if tp.Raw && cat != c14Persistent && cat != c14SharedPersistent {
+				continue
+			}
 			persisted := tp.Persist && (cat == c14Persistent || cat == c14SharedPersistent)
 			global := tp.Common || (tp.Shared && (cat == c14Shared || cat == c14SharedPersistent))
 			for _, tm := range tmpls {
@@ -152,6 +171,9 @@ func (a *c14Agg) add(sc *c14Scenario, fault *c14Fault, s *vk.Sched, out *c14Outc
 		return
 	}
 	run.Count("runs_judged", 1)
+	if sc.Topo.Raw && sc.Init == "cold" {
+		run.Count("raw_cold_updates_judged", 1)
+	}
 	run.Distinct(sc.ID + "/" + fs + "/" + s.Fingerprint())
 	cat := sc.CatName
 	if fault == nil {
@@ -339,11 +361,20 @@ func c14Drive(t *testing.T, run *vk.Run, scs []*c14Scenario, b c14Budget) *c14Ag
 			}
 		}()
 	}
+	var serial []*c14Scenario
 	for _, sc := range scs {
+		if sc.Topo.Raw {
+			serial = append(serial, sc) // quiescence is read from goroutine stacks: one world at a time
+			continue
+		}
 		ch <- sc
 	}
 	close(ch)
 	wg.Wait()
+	for _, sc := range serial {
+		c14RunScenario(run, sc, b, agg)
+		run.Count("raw_memory_cache_scenarios", 1)
+	}
 	run.Count("scenarios", int64(len(scs)))
 	keys := map[string]bool{}
 	for _, sc := range scs {
@@ -399,6 +430,7 @@ func TestVerifC14List(t *testing.T) {
 	run.Rule(c14Rule + "; oracle: after quiescence every member appended by a call that returned nil is present on every probed node, every removed one absent, initial members kept; concurrent GetList must hold all members whose append had returned; tier-routing monitor")
 	b := c14Budget{explore: run.Pick(60, 3000), random: run.Pick(6, 100), faultExplore: run.Pick(3, 200), faultRandom: run.Pick(1, 10)}
 	scs := c14Scenarios(c14ListTmpls, true)
+	scs = append(scs, c14ScenariosOn([]c14Topo{{Name: "rawmem", Persist: true, Raw: true}}, c14RawListTmpls, true)...)
 	c14Drive(t, run, scs, b)
 	run.Floor("runs_judged", int64(run.Pick(4000, 40000)))
 	run.Floor("fault_hits", 500)
@@ -406,6 +438,8 @@ func TestVerifC14List(t *testing.T) {
 	for _, c := range c14CatName {
 		run.Floor("list_updates_concurrent|"+c, 50)
 	}
+	run.Floor("raw_memory_cache_scenarios", 1)
+	run.Floor("raw_cold_updates_judged", 1)
 	run.Floor("window_miss_then_mutation|persistent", 1)
 	run.Floor("window_miss_then_mutation|sharedpersistent", 1)
 }
